@@ -7,6 +7,13 @@ use crate::common::*;
 
 pub struct C13;
 
+const HAND: [(&str, u8); 4] = [
+    ("var<push_constant> consts: vec4<f32>;\n@vertex\nfn vs_main() -> @builtin(position) vec4<f32> { return consts; }\n@fragment\nfn fs_main() -> @location(0) vec4<f32> { let p = &consts; return vec4<f32>(1.0); }\n", 3),
+    ("struct Pc { a: vec4<f32>, b: f32 }\nvar<push_constant> consts: Pc;\nfn touch() { let p = &consts.b; }\n@vertex\nfn vs_main() -> @builtin(position) vec4<f32> { return consts.a; }\n@compute @workgroup_size(1)\nfn cs_main() { touch(); }\n", 5),
+    ("var<push_constant> consts: vec4<f32>;\n@fragment\nfn fs_main() -> @location(0) vec4<f32> { let p = &consts; return vec4<f32>(1.0); }\n@compute @workgroup_size(1)\nfn cs_main() { }\n", 2),
+    ("var<push_constant> consts: mat4x4<f32>;\nfn fetch() -> vec4<f32> { return consts[0]; }\n@vertex\nfn vs_main() -> @builtin(position) vec4<f32> { return fetch(); }\n@fragment\nfn fs_main() -> @location(0) vec4<f32> { return fetch(); }\n@compute @workgroup_size(1)\nfn cs_main() { }\n", 3),
+];
+
 /// (prelude declarations, type, hand-computed WGSL byte size)
 const TYPES: [(&str, &str, u32); 30] = [
     ("", "f32", 4),
@@ -128,6 +135,14 @@ impl Property for C13 {
             }
             out.push(Case::new(format!("gen{i}"), wgsl, Params::default().validated(i % 3 == 0)));
         }
+        // hand-written shapes (round 8 seeds): WGSL counts a mention of the variable as a static access even when nothing is loaded
+        // through it, naga's GlobalUse does not - so the expected stage set is written down by hand (`pc_stages`, bit 1 = vertex,
+        // 2 = fragment, 4 = compute), and it must not depend on whether validation runs
+        for (k, (src, bits)) in HAND.iter().enumerate() {
+            for v in [false, true] {
+                out.push(Case::new(format!("hand{k}/validate={v}"), src.to_string(), Params::default().validated(v).extra("pc_stages", bits.to_string())));
+            }
+        }
         out
     }
 
@@ -205,11 +220,12 @@ impl Property for C13 {
                 let bits = super::c03::naga_stage_bits(&m, &info);
                 let used = bits[h];
                 let entry_bits = m.entry_points.iter().fold(0u8, |a, e| a | stage_bit(e.stage));
-                let want_bits = if used != 0 { used } else { entry_bits };
+                let by_hand = case.params.get("pc_stages").and_then(|b| b.parse::<u8>().ok());
+                let want_bits = by_hand.unwrap_or(if used != 0 { used } else { entry_bits });
                 match consts.as_slice() {
                     [c] if c.ty == "wgpu::ShaderStages" => match parse_stages(&c.value) {
                         Some(got) if got == want_bits => {}
-                        Some(got) if got & used == used && super::c03::has_silent_reference(&m, &info, *h) => {}
+                        Some(got) if by_hand.is_none() && got & used == used && super::c03::has_silent_reference(&m, &info, *h) => {}
                         Some(got) => o.fail(case, "PUSH_CONSTANT_STAGES", stages_name(want_bits), format!("{} ({})", stages_name(got), c.value)),
                         None => o.fail(case, "PUSH_CONSTANT_STAGES", stages_name(want_bits), c.value.clone()),
                     },
